@@ -329,7 +329,7 @@ theorem unregister_only_on_death {st st' : Sig.State} {op : Sig.Op}
   | delSig s => simp only [Sig.step, bind, Except.bind] at hs; split at hs <;> cases hs; rfl
 
 /-- non-vacuity: a signal history with connect, death, move, move-assignment -/
-example : sigValidRun [] [.newSig 0 1, .connect 0 0 5 (some 1), .connect 1 0 6 none, .moveCtor 1 0,
+example : sigValidRun [] [.newSig 0 (some 1), .connect 0 0 5 (some 1), .connect 1 0 6 none, .moveCtor 1 0,
     .connect 2 0 7 (some 2), .moveAssign 0 1, .disconnect 0, .delSig 0, .disconnect 1] = true := by decide
 
 end Fcppt.C11
